@@ -52,12 +52,12 @@ pub fn check_day(n: i32) -> Result<(), String> {
             let p = Date::try_from_days(n - 1).map_err(|e| format!("try_from_days({}) = Err({e:?})", n - 1))?;
             let pr = c.row(n as i64 - 1).unwrap();
             let triple_lt = (pr.y, pr.m, pr.d) < (r.y, r.m, r.d);
-            if !(p < d) || !(d > p) || p == d || p.cmp(&d) != Ordering::Less || p.partial_cmp(&d) != Some(Ordering::Less) || !triple_lt || !(p <= d) || d <= p {
+            if !(p < d) || !(d > p) || p == d || p.cmp(&d) != Ordering::Less || p.partial_cmp(&d) != Some(Ordering::Less) || !triple_lt || !(p <= d) || d <= p || !ord_provided_ok(p, d, Ordering::Less) {
                 return Err(format!("ordering of consecutive dates {} and {n} is not that of their triples", n - 1));
             }
         }
         #[allow(clippy::eq_op)]
-        if !(d == d) || d.cmp(&d) != Ordering::Equal {
+        if !(d == d) || d.cmp(&d) != Ordering::Equal || !ord_provided_ok(d, d, Ordering::Equal) {
             return Err("a date does not compare equal to itself".into());
         }
         Ok(())
@@ -131,15 +131,21 @@ pub fn check_triple_parsed(which: u8, y: i32, m: u32, d: u32) -> Result<bool, St
         1 => (format!("{d}.{m}.{y} 10:20:30"), "DD.MM.YYYY HH24:MI:SS"),
         2 => (format!("{m:02}/{d:02}/{y:04}"), "MM/DD/YYYY"),
         3 => (format!("{d:02} {y:04} {m:02}"), "DD YYYY MM"),
+        // a short-year token given all four digits of the year (read as the full year, not
+        // completed from the clock): plain, and with the carrying fraction
+        5 => (format!("{y:04}-{m:02}-{d:02} 23:59:59.9999996"), "YY-MM-DD HH24:MI:SS.FF9"),
+        6 => (format!("{d:02}/{m:02}/{y:04}"), "DD/MM/YY"),
         // a fraction that rounds up to the next second at 23:59:59: a real date carries into the
         // next day, an impossible triple stays impossible
         _ => (format!("{y:04}-{m:02}-{d:02} 23:59:59.9999996"), "YYYY-MM-DD HH24:MI:SS.FF9"),
     };
     let extra = match which / 3 {
         1 => 37_230_000_000i128,
-        4 => 86_400_000_000,
+        4 | 5 => 86_400_000_000,
         _ => 0,
     };
+    let short_year = which / 3 >= 5;
+    let carrying = which / 3 == 4 || which / 3 == 5;
     let name = ["Date", "Timestamp", "OracleDate"][which as usize % 3];
     let res: Result<i128, Error> = guarded(|| match which % 3 {
         0 => Date::parse(&text, pic).map(|x| x.days() as i128 * 86_400_000_000 + extra),
@@ -147,21 +153,21 @@ pub fn check_triple_parsed(which: u8, y: i32, m: u32, d: u32) -> Result<bool, St
         _ => OracleDate::parse(&text, pic).map(|x| x.usecs() as i128),
     })
     .map_err(|p| format!("{name}::parse({text:?}, {pic:?}): {p}"))?;
-    if which / 3 == 4 && which % 3 == 2 {
+    if carrying && which % 3 == 2 {
         // the Oracle-style date has no fraction field: any error
         return match res {
             Err(_) => Ok(false),
             Ok(x) => Err(format!("OracleDate::parse({text:?}, {pic:?}) = Ok({x}) although the picture has a fraction field")),
         };
     }
-    if which / 3 == 4 && expect == Some(c.last) {
+    if carrying && expect == Some(c.last) {
         // the carry leaves the range: any error
         return match res {
             Err(_) => Ok(false),
             Ok(x) => Err(format!("{name}::parse({text:?}, {pic:?}) = Ok({x}): the rounded-up second lies after the maximum")),
         };
     }
-    if which % 3 == 0 && (which / 3 == 1 || which / 3 == 4) {
+    if which % 3 == 0 && (which / 3 == 1 || carrying) {
         // a time-bearing picture does not apply to the plain date: any error
         return match res {
             Err(_) => Ok(false),
@@ -175,6 +181,10 @@ pub fn check_triple_parsed(which: u8, y: i32, m: u32, d: u32) -> Result<bool, St
             }
             Ok(true)
         }
+        // reading four digits under a two-letter year token is a latitude of the parser, not part of
+        // the statement: a rejection is not judged, an accepted value is
+        (Some(_), Err(_)) if short_year => Ok(false),
+        (None, Err(_)) if short_year => Ok(false),
         (Some(n), Err(e)) => Err(format!("{name}::parse({text:?}, {pic:?}) = Err({e:?}) for a real date (day {n})")),
         (None, Ok(x)) => Err(format!("{name}::parse({text:?}, {pic:?}) accepted a triple that names no date in years 1..9999 ({x} us)")),
         (None, Err(e)) => {
@@ -422,9 +432,9 @@ pub fn run(ctx: &Ctx) -> (Stats, Report) {
             let y = y as i32;
             for &m in &pm {
                 for &d in &pd {
-                    // five pictures (year first / last / in the middle, and one whose fraction carries out of 23:59:59) x three types, rotated; the carrying picture through Timestamp for every triple
-                    let rot = [((y as u32 + m + d) % 15) as u8, ((y as u32 + m + d + 7) % 15) as u8, 13];
-                    let whichs: &[u8] = if all_entry_points { &[0, 1, 2, 3, 4, 5, 6, 7, 8, 9, 10, 11, 12, 13, 14] } else { &rot };
+                    // seven pictures (year first / last / in the middle, one whose fraction carries out of 23:59:59, two with a two-letter year token given four digits) x three types, rotated; both carrying pictures through Timestamp for every triple
+                    let rot = [((y as u32 + m + d) % 21) as u8, ((y as u32 + m + d + 10) % 21) as u8, 13, 16];
+                    let whichs: &[u8] = if all_entry_points { &[0, 1, 2, 3, 4, 5, 6, 7, 8, 9, 10, 11, 12, 13, 14, 15, 16, 17, 18, 19, 20] } else { &rot };
                     for &which in whichs {
                         st.evaluations += 1;
                         match check_triple_parsed(which, y, m, d) {
